@@ -25,6 +25,9 @@ type cfg struct {
 
 	msg any
 
+	// request carrying X-headers when msg itself has none (binary object header)
+	xHdrReq Request
+
 	cnr cid.ID
 	obj oid.ID
 }
@@ -88,6 +91,8 @@ func (h *headerSource) HeadersOfType(typ eacl.FilterHeaderType) ([]eacl.Header, 
 		if h.requestHeaders == nil {
 			if x, ok := h.cfg.msg.(xHeaderSource); ok {
 				h.requestHeaders = requestHeaders(x)
+			} else if h.cfg.xHdrReq != nil {
+				h.requestHeaders = requestHeaders(requestXHeaderSource{req: h.cfg.xHdrReq})
 			}
 		}
 		return h.requestHeaders, true, nil
